@@ -291,22 +291,16 @@ func (cp *chargePoint) SetCertificateHandler(handler certificates.ChargePointHan
 }
 
 func (cp *chargePoint) SendRequest(request ocpp.Request) (ocpp.Response, error) {
-	featureName := request.GetFeatureName()
-	if _, found := cp.client.GetProfileForFeature(featureName); !found {
-		return nil, fmt.Errorf("feature %v is unsupported on charge point (missing profile), cannot send request", featureName)
-	}
-
 	// Wraps an asynchronous response
 	type asyncResponse struct {
 		r ocpp.Response
 		e error
 	}
-	// Create channel and pass it to a callback function, for retrieving asynchronous response
+	// Create channel and pass it to a callback function, for retrieving asynchronous response.
+	// The request goes through SendRequestAsync, so the same checks apply: a charge point can only
+	// send the requests of its own role.
 	asyncResponseC := make(chan asyncResponse, 1)
-	send := func() error {
-		return cp.client.SendRequest(request)
-	}
-	err := cp.callbacks.TryQueue("main", send, func(confirmation ocpp.Response, err error) {
+	err := cp.SendRequestAsync(request, func(confirmation ocpp.Response, err error) {
 		asyncResponseC <- asyncResponse{r: confirmation, e: err}
 	})
 	if err != nil {
